@@ -380,6 +380,17 @@ func runC16(c *Ctx) {
 		}
 		okOnce := len(oc) == 1 && u.CoveredByRecover(oc[0].Instr)
 		r.Check(okOnce, "R-CANCEL", "handleStreamCancel|OnCancel", u.Pos(cf.Pos()), "OnCancel called at one site under recover", "OnCancel is not called at exactly one recover-covered site")
+		// the recover is local to the hook call: the response write lives in a different frame, so a
+		// panicking hook cannot skip it
+		if len(oc) == 1 {
+			wa := u.Calls(cf, Is("(*HttpServer).writeArrow"))
+			isolated := oc[0].Fn != cf && len(wa) >= 1
+			r.Check(isolated, "R-CANCEL", "handleStreamCancel|hook-isolated", u.Pos(oc[0].Instr.Pos()), "OnCancel runs in its own recover closure; the empty response is written by the enclosing frame",
+				"OnCancel's panic is recovered by the same frame that writes the response: a panicking hook returns before the empty stream is written (client gets a bodiless 200)")
+			// and every path of handleStreamCancel writes the response
+			_, silent := ReachWithout(cf, nil, IsReturn, u.CallMatcher(Is("(*HttpServer).writeArrow"), false))
+			r.Check(!silent, "R-CANCEL", "handleStreamCancel|always-answers", u.Pos(cf.Pos()), "every path writes the empty stream", "a path returns from handleStreamCancel without writing the response")
+		}
 		toks := u.CallsDeep(cf, Is("(*HttpServer).packCursorToken", "(*HttpServer).packCursorTokenFor", "writeStateTokenBatch", "(*HttpServer).packCallToken", "(*HttpServer).sealToken"))
 		r.Check(len(toks) == 0, "R-CANCEL", "handleStreamCancel|no-token", u.Pos(cf.Pos()), "cancel response carries no token", "cancel path mints or writes a token")
 		prod := u.CallsDeep(cf, Or(HasSuffix("ProducerState.Produce"), HasSuffix("ExchangeState.Exchange"), Is("(*HttpServer).runProduceLoop")))
@@ -421,6 +432,37 @@ func runC16(c *Ctx) {
 				"handler-visible metadata = {"+OriginSummary(os)+"}", "handler-visible InputMetadata has unstripped origins: "+strings.Join(bad, ", "))
 		}
 	}
+	// the strip function tests EVERY metadata entry against the table (not just the first occurrence of each key)
+	if sf := c.Fn("R-STRIP", "stripFrameworkTickMetadata"); sf != nil {
+		perEntry := false
+		Instrs(sf, func(in ssa.Instruction) {
+			lk, ok := in.(*ssa.Lookup)
+			if !ok || !strings.Contains(u.Describe(lk.X), "frameworkTickMetadataKeys") {
+				return
+			}
+			// the key looked up is an element of meta.Keys() indexed by a loop variable
+			d := u.Describe(lk.Index)
+			if strings.Contains(d, "Keys(meta)[") {
+				if ia, ok := lk.Index.(*ssa.UnOp); ok {
+					if ix, ok := ia.X.(*ssa.IndexAddr); ok {
+						switch iv := ix.Index.(type) {
+						case *ssa.Phi:
+							perEntry = true
+						case *ssa.BinOp: // range loops index with phi+1
+							if _, isPhi := iv.X.(*ssa.Phi); isPhi {
+								perEntry = true
+							}
+						}
+					}
+				}
+			}
+		})
+		// no first-match search primitives
+		first := u.Calls(sf, Or(HasSuffix("arrow.Metadata).FindKey"), HasSuffix("arrow.Metadata).GetValue")))
+		r.Check(perEntry && len(first) == 0, "R-STRIP", "stripFrameworkTickMetadata|per-entry", u.Pos(sf.Pos()), "each metadata entry is tested against the framework-key table",
+			"stripFrameworkTickMetadata does not test every entry of meta.Keys() against the table (uses a first-match lookup): a duplicated framework key survives and the sealed token reaches the handler")
+	}
+
 	// strip table ⊇ keys read by handleStreamExchange from the continuation batch
 	if hx := u.Func("(*HttpServer).handleStreamExchange"); hx != nil {
 		read := map[string]bool{}
